@@ -726,7 +726,7 @@ class Unit:
 
     def __init__(self, file, name, cls=None, cname=None, sig=None, nth=0, bind=None, method=None,
                  selftype=None, pre=(), post=(), ret=None, params=None, extra_members=(), refs_keep=(),
-                 maythrow=False, scalar_types=(), static=False, drop_const_self=False, block=None, objs=None, retval=None, witness=(), strs=(), base_init_ok=(), enums=(), stub_siblings=None, rename=None):
+                 maythrow=False, scalar_types=(), static=False, drop_const_self=False, block=None, objs=None, retval=None, witness=(), strs=(), base_init_ok=(), enums=(), stub_siblings=None, rename=None, helpers=False):
         self.file = file
         self.name = name
         self.cls = cls
@@ -744,6 +744,7 @@ class Unit:
         self.refs_keep = refs_keep
         self.maythrow = maythrow
         self.scalar_types = scalar_types
+        self.helpers = helpers
         self.block = block
         self.objs = objs or {}
         self.retval = retval
@@ -763,6 +764,11 @@ def apply_mustfire(s, rules, R, what):
         pat, rep = r[0], r[1]
         cnt = r[2] if len(r) > 2 else None
         s2, n = re.subn(pat, rep, s, flags=re.S)
+        if cnt == '?':          # optional rule (helper units inherit the rules of the unit they were split from)
+            if n:
+                R.hit('unit_rewrite(optional):' + pat[:40], n)
+            s = s2
+            continue
         if n == 0 or (cnt is not None and n != cnt):
             raise ExtractError('must-fire rewrite did not fire as expected (%d hits, want %s) in %s: %s' % (n, cnt if cnt is not None else '>=1', what, pat))
         R.hit('unit_rewrite:' + pat[:40], n)
@@ -836,6 +842,31 @@ def rw_try(s, R):
             first = False
         s = s[:m.start()] + out + rest
         R.hit('try')
+
+
+NOT_A_CALL = {'if', 'for', 'while', 'switch', 'return', 'sizeof', 'static_cast', 'reinterpret_cast', 'const_cast', 'dynamic_cast', 'assert', 'catch', 'throw', 'new', 'delete',
+              'defined', 'decltype', 'noexcept', 'alignof', 'typeid'}
+
+
+def called_helpers(repo, u, known, src_cache=None):
+    """member functions of u.cls that the body of u calls without a receiver and that are neither stubbed nor units already: a function that
+    was split off into a helper of the same class is pulled in with the unit (Unit(helpers=True)) instead of breaking the extraction"""
+    path = repo + '/' + u.file
+    src = src_cache[path] if src_cache is not None and path in src_cache else preprocess(strip_comments(open(path).read()))
+    if src_cache is not None:
+        src_cache[path] = src
+    f = find_function(src, u.name, u.cls, u.sig, u.nth)
+    out = []
+    for m in re.finditer(r'(?<![\w:~.>])([A-Za-z_]\w*)\s*\(', f['body']):
+        n = m.group(1)
+        if n in NOT_A_CALL or n in known or n in out or n == u.name or n in (u.stub_siblings or {}):
+            continue
+        try:
+            find_function(src, n, u.cls)
+        except (ExtractError, IndexError, TypeError):
+            continue
+        out.append(n)
+    return out
 
 
 def extract(repo, u, R=None, src_cache=None, siblings=None):
